@@ -26,6 +26,8 @@ Case kinds
 """
 import time
 
+import common
+
 from sexp import Sym, dumps, loads
 import gen_oal_text as G
 
@@ -61,6 +63,20 @@ def setup(ctx):
     _oal = oal
     _enc = oal_sexp
     oal.parse('x = 1;')          # tables are generated once, before the pool forks
+    # the translator's notion of "statement / expression node class" must be the one D checks
+    import sys as _sys
+    _sys.path.insert(0, str(common.VERIF / 'translator'))
+    import gen_oaltrack
+    try:
+        g = gen_oaltrack.extract(str(ctx.ws.repo))
+    except Exception:
+        g = None                 # a changed source shape is reported by the runner as a broken translator tie
+    if g is not None:
+        built = set(p['res'][1] for p in g['prods'] if p['res'][0] == 'node')
+        mine = set(G.CHECKED)
+        if (set(g['checked']) & built) - mine or (mine - set(g['checked'])):
+            raise common.HarnessError('node classes checked by D and by the translator differ: %s'
+                                      % sorted(((set(g['checked']) & built) - mine) | (mine - set(g['checked']))))
     G.ply_tokens('x')
 
 
@@ -114,6 +130,8 @@ def _tight_cases(ctx):
 
 
 def generate(ctx):
+    # the production table read by the translator against PLY's own table
+    yield {'kind': 'grammar', 'text': ''}
     # time families first: a super-linear rule shows up on them at once (and would slow every later case)
     for c in _time_cases(ctx):
         yield c
@@ -173,6 +191,20 @@ def _parse(text):
     except Exception as e:       # anything else is a finding, reported with the input
         root, out = None, 'exception:%s' % type(e).__name__
     return out, root, time.perf_counter() - t0
+
+
+def _ply_productions():
+    """PLY's own production table (as loaded for parsing): function, lhs, length, rhs, is the callable wrapped by
+    track_production"""
+    parser = _oal.OALParser()
+    out = []
+    for p in parser.parser.productions[1:]:
+        lhs, _, rhs = p.str.partition(' -> ')
+        if rhs == '<empty>':
+            rhs = ''
+        fn = p.callable
+        out.append([p.func, lhs, p.len, rhs, Sym('T') if hasattr(fn, '__wrapped__') else Sym('F')])
+    return sorted(out, key=lambda x: (x[0], x[3]))
 
 
 def _pipeable(text):
@@ -267,6 +299,8 @@ def run_impl(case):
     elif case['kind'] == 'total':
         stats['stream_' + case['stream']] = 1
         nontrivial = len(text) > 0
+    elif case['kind'] == 'grammar':
+        nontrivial = True
     elif case['kind'] == 'tight':
         nontrivial = True
         for tight, tu, tv, toks, su, sv in case['pairs']:
@@ -293,6 +327,9 @@ def run_impl(case):
             fails.append({'sig': 'lexer-exception:%s' % type(e).__name__,
                           'what': 'the lexer raised %s: %s on %r' % (type(e).__name__, str(e)[:100], short)})
             obs = 'lexer-exception'
+    if case['kind'] == 'grammar':
+        obs = _ply_productions()
+        stats['ply_productions'] = len(obs)
     if unsound is not None:
         # a pair the proved theorem accepts but the real lexer splits differently: the lexer model (or the
         # well-formedness of the generated lexeme) is wrong - make the correspondence fail on this case
@@ -303,6 +340,8 @@ def run_impl(case):
 # ------------------------------------------------------------------------------------------ model
 
 def model_line(case):
+    if case['kind'] == 'grammar':
+        return '(c13-grammar)'
     text = case['text']
     if not _pipeable(text):
         return None
@@ -313,6 +352,8 @@ def model_line(case):
 
 
 def model_obs(case, ans):
+    if case['kind'] == 'grammar':
+        return sorted(ans, key=lambda x: (x[0], x[3]))
     return ans
 
 
